@@ -10,9 +10,9 @@
    _tskitmodule.c) cannot be exhibited by a Gallina model: only schedule independence of
    the combination logic is proved. *)
 From Coq Require Import List ZArith QArith.
-From TskVerif Require Import C08.Model C08.Incremental C08.Afs C08.Shapes C08.PairSpan
+From TskVerif Require Import C08.Model C08.Incremental C08.Afs C08.Shapes C08.PairSpan C08.Rf
   C08.WindowProofs C08.ChunkProofs C08.IncrementalProofs C08.AfsProofs C08.ShapesProofs
-  C08.PairSpanProofs.
+  C08.PairSpanProofs C08.RfProofs.
 Import ListNotations.
 Open Scope Q_scope.
 
@@ -123,3 +123,11 @@ Theorem pair_coalescence_span_refuted :
     trees = w_ptrees /\
     qlist_eqb (pcc_code_spans trees ws) (pcc_spec_spans trees ws) = false.
 Proof. exact pcc_span_violates_definition. Qed.
+
+(* REFUTED (finding C08-F4): Tree.rf_distance is not the number of sample bipartitions in
+   one tree but not the other when a tree has a sample-less subtree. *)
+Theorem rf_distance_refuted :
+  exists p1 p2 samples,
+    p1 = [1; 2; -1]%Z /\ p2 = [2; 2; -1]%Z /\ samples = [0; 2]%Z /\
+    rf_code p1 p2 samples = 1%Z /\ rf_spec p1 p2 samples = 0%Z.
+Proof. exact rf_counts_empty_clade. Qed.
